@@ -6,7 +6,9 @@ EdgeAssemblyChanger and per branch of it); this module binds it to the real code
 1. exhaustive TLC run of the reference (all invariants, per-action coverage) + the literal restore clause that TLC refutes
    (interpretation I2), whose refuting behaviour is run on the real code and reported as a note;
 2. spec -> code: the graph TLC explores from a family of loading patterns is printed edge by edge with the observation of
-   every state; walks of real convert / restorePreviousGeometry / addEdgeAssemblies / removeEdgeAssemblies calls on
+   every state; walks of real convert / restorePreviousGeometry / addEdgeAssemblies / removeEdgeAssemblies /
+   scaleParamsRelatedToSymmetry calls (and `solve`: assignment of every valued volume-integrated parameter, standing for the
+   flux solve between adding the edge assemblies and scaling) on
    generated third cores (harness/gen_core.py assemblies, random block parameters) take every edge at least once and compare,
    after EVERY call, the complete projection (cells, which original each assembly is / copies, rotation, symmetry factor,
    reported mass and volume fractions, stored parameter scales, every other parameter and the block contents unchanged,
@@ -769,8 +771,8 @@ def drive(ad, w, calls, tid, pat, with_totals):
     sf0 = {x["o"]: x["sf"] for x in last["asm"] if x["orig"]}     # factors the built values were written under (measured)
     for a in calls:
         a = dict(a)
-        if a["n"] == "scaleParams" and last["sym"] != "third":
-            continue      # the call is meant for a third core that carries its edge assemblies (precondition of the action)
+        if a["n"] == "scaleParams" and (last["sym"] != "third" or last["count"] == 0):
+            continue      # the call is meant for a (non-empty) third core that carries its edge assemblies: precondition I6
         if a["n"] == "solve" and "ps" not in a:
             # the values a driver writes are inputs, logged with the event: either what a solver would write for the part of
             # each assembly that is modelled now (built factor / current factor, both as measured), or the present values again
@@ -952,8 +954,8 @@ def phase_walks(rep, thorough, seed):
         if not front:
             raise tlc.MachineryError("vacuous: no emitted behaviour contains %s" % flow_)
     ad = CoreAdapter(seed, all_cells=conf[0]["all"])
-    # deterministic cap on the number of real calls (quick: the whole graph is walked; thorough: ~13 k calls cover it)
-    nsteps, ndone, nontriv, nworlds, divs, left = cover(g, ad, obs_of, max_walk=60, max_calls=16000 if thorough else 4000)
+    # deterministic cap on the number of real calls (quick: the whole graph is walked; thorough: ~15 k calls cover it)
+    nsteps, ndone, nontriv, nworlds, divs, left = cover(g, ad, obs_of, max_walk=60, max_calls=20000 if thorough else 4000)
     if ndone == 0:
         raise tlc.MachineryError("no edges replayed")
     rep.add_replay("walks", ndone, nontriv,
